@@ -208,6 +208,27 @@ def oracle_C03(spec, tr):
                             {'got': last['angular acceleration'][j], 'want': want, 'J': J}))
                 return out
     sp, sv = vscale(tr, 'angular position'), vscale(tr, 'angular speed')
+    own = sim.owner_at(spec, tr)
+    if locked is not None and n > 0 and locked[0] and own and own[0] is not None:
+        # held at the very first instant (of the history that is left): only for a null duty cycle or an initial
+        # motion against it
+        oi = own[0]
+        D = tr['ops'][oi]['pwm_before']
+        ini = spec['init']
+        for op in spec['ops'][:oi]:
+            if op['op'] == 'init':
+                ini = op
+            elif op['op'] == 'reset':
+                ini = None
+        if ini is not None and D != 0:
+            w_last = float(F(ini['speed'][0]) * SI['AngularSpeed'][ini['speed'][1]])
+            wm = w_last
+            for r in reversed(tr['ratios']):
+                wm *= r
+            if wm == 0 or (abs(wm) > 1e-9 * max(sv, abs(wm)) and not D * wm < 0):
+                out.append((f'the powertrain is held at the initial instant although the duty cycle in force ({D}) is not null and the '
+                            f'initial motor speed ({wm}) does not oppose it', {}))
+                return out
     for sg in run_segments(spec, tr):
         a, b, dt = sg['a'], min(sg['b'], n), sg['dt']
         for j in range(max(a, 1), b):
@@ -220,6 +241,20 @@ def oracle_C03(spec, tr):
                 return out
             got = last['angular speed'][j]
             is_locked = locked[j] if locked is not None else (tr['sl'] and got == 0)
+            if locked is not None and locked[j] and not locked[j - 1]:
+                # "clamped to zero only if self-locking engages at that instant": the hold begins only when the duty
+                # cycle in force is null or the (advanced, not yet clamped) motor speed opposes it
+                D = tr['els'][0]['pwm'][j - 1]
+                wm = v
+                for r in reversed(tr['ratios']):
+                    wm *= r
+                if D != 0 and abs(wm) > 1e-9 * max(sv, abs(wm)) and not (D * wm < 0):
+                    out.append((f'the powertrain is held from instant {j} on although the duty cycle in force ({D}) is not null and the '
+                                f'motor speed ({wm}) does not oppose it', {}))
+                    return out
+                if D != 0 and wm == 0:
+                    out.append((f'the powertrain is held from instant {j} on although the duty cycle in force ({D}) is not null and the motor is at rest', {}))
+                    return out
             wantv = 0.0 if is_locked else v
             if not near(got, wantv, max(sv, abs(v))):
                 out.append((f'speed at instant {j} is not previous + previous acceleration x dt', {'got': got, 'want': wantv, 'dt': dt}))
